@@ -274,6 +274,65 @@ dump_tree (tree const &t)
   return r + "]";
 }
 
+
+// S-expression dump of a tree, for the Coq model (see coq/zw/Tree.v)
+static std::string
+sx_tree (tree const &t)
+{
+  auto kids = [&] () {
+    std::string r;
+    for (auto const &c: t.m_children)
+      r += " " + sx_tree (c);
+    return r;
+  };
+  switch (t.m_tt)
+    {
+    case tree_type::CAT: return "(CAT" + kids () + ")";
+    case tree_type::ALT: return "(ALT" + kids () + ")";
+    case tree_type::OR: return "(OR" + kids () + ")";
+    case tree_type::CAPTURE: return "(CAPTURE" + kids () + ")";
+    case tree_type::SUBX_EVAL:
+      return "(SUBX " + show_mpz (t.cst ().value ()) + kids () + ")";
+    case tree_type::IFELSE: return "(IFELSE" + kids () + ")";
+    case tree_type::SCOPE: return "(SCOPE" + kids () + ")";
+    case tree_type::BLOCK: return "(BLOCK" + kids () + ")";
+    case tree_type::BIND: return "(BIND x" + hex (t.str ()) + ")";
+    case tree_type::READ: return "(READ x" + hex (t.str ()) + ")";
+    case tree_type::NOP: return "(NOP)";
+    case tree_type::CLOSE_STAR: return "(STAR" + kids () + ")";
+    case tree_type::CLOSE_PLUS: return "(PLUS" + kids () + ")";
+    case tree_type::ASSERT: return "(ASSERT" + kids () + ")";
+    case tree_type::EMPTY_LIST: return "(EMPTYLIST)";
+    case tree_type::PRED_AND: return "(PAND" + kids () + ")";
+    case tree_type::PRED_OR: return "(POR" + kids () + ")";
+    case tree_type::PRED_NOT: return "(PNOT" + kids () + ")";
+    case tree_type::PRED_SUBX_ANY: return "(PSUBX" + kids () + ")";
+    case tree_type::CONST:
+      return "(CONST " + show_mpz (t.cst ().value ()) + " x"
+	+ hex (t.cst ().dom () ? t.cst ().dom ()->name () : "?") + ")";
+    case tree_type::STR: return "(STR x" + hex (t.str ()) + ")";
+    case tree_type::FORMAT: return "(FORMAT" + kids () + ")";
+    case tree_type::F_DEBUG: return "(DEBUG)";
+    case tree_type::F_BUILTIN:
+      {
+	// The parser plants two kinds of builtins directly: ?N / !N and the
+	// drop-below of backtick brackets.  Their parameters are private; the
+	// names of what they build carry them.
+	layout l;
+	std::string nm;
+	if (auto p = t.m_builtin->build_pred (l))
+	  nm = p->name ();
+	else
+	  {
+	    auto origin = std::make_shared <op_origin> (l);
+	    nm = t.m_builtin->build_exec (l, origin)->name ();
+	  }
+	return "(BUILTIN x" + hex (nm) + ")";
+      }
+    }
+  return "(?)";
+}
+
 struct kase
 {
   std::string query;
@@ -590,8 +649,10 @@ run_tree (kase const &k)
     {
       tree t = parse_query (k.query.data (), k.query.data () + k.query.size ());
       std::string raw = dump_tree (t);
+      std::string sx_raw = sx_tree (t);
       t.simplify ();
       std::string simp = dump_tree (t);
+      std::string sx_simp = sx_tree (t);
       std::string built = "true", berr = "null";
       try
 	{
@@ -604,7 +665,8 @@ run_tree (kase const &k)
 	  built = "false";
 	  berr = jstr (exc.what ());
 	}
-      return "{\"tree\":" + raw + ",\"simplified\":" + simp + ",\"built\":" + built
+      return "{\"tree\":" + raw + ",\"simplified\":" + simp + ",\"sx\":" + jstr (sx_raw)
+	+ ",\"sx_simplified\":" + jstr (sx_simp) + ",\"built\":" + built
 	+ ",\"build_error\":" + berr + "}";
     }
   catch (std::exception const &exc)
